@@ -19,6 +19,7 @@ mod c13;
 mod c14;
 mod c15;
 mod c16;
+mod c17;
 mod c19;
 mod c20;
 
@@ -77,6 +78,7 @@ fn main() {
         "c14" => c14::run(opts),
         "c15" => c15::run(opts),
         "c16" => c16::run(opts),
+        "c17" => c17::run(opts),
         "c19" => c19::run(opts),
         "c20" => c20::run(opts),
         other => {
